@@ -132,6 +132,15 @@ structure Obs where
   mfin : Option Nat := none
   /-- tokens handed out by every RPS schedule object that ended, in the order of `rpsspans` -/
   rpsgiven : List Int := []
+  /-- round 4: `Left()` of a fresh, never started copy of the RPS profile / of the startup profile (none: not observed) -/
+  rpsl0 : Option Int := none
+  sul0 : Option Int := none
+  /-- the RPS profile has a part of unknown length (an `unlimited` part), from the input text -/
+  rpsunk : Bool := false
+  /-- round 4: tokens handed out by the LEAVES of the pool's RPS schedule objects (−1: not counted) and tokens those objects
+  handed to their callers -/
+  rpsleaf : Int := -1
+  rpsout : Int := 0
   /-- tokens of the countable parts of the RPS profile (`rpsFloor`, computed from the profile text) -/
   rpsfloor : Nat := 0
 deriving Repr
@@ -247,6 +256,9 @@ These are exact counts, independent of timing (an overdue token is shot at once;
 def judgeFired (perinst : Bool) (o : Obs) : String :=
   let stopped := (cutAt o "cancel").isSome || (cutAt o "fail").isSome || (cutAt o "panic").isSome
   -- an RPS profile with an unlimited part is not exhausted before that part's time is over (zero margin, one-sided)
+  -- every token a part of the profile hands out reaches a caller of the profile (exact, whatever else happened): a token taken
+  -- inside the profile — by a `Left()` that probes the next part, by a lost race at the end of a part — is a shot never fired
+  if o.rpsleaf ≥ 0 && o.rpsleaf != o.rpsout then s!"fail:fired:the parts of the RPS profile handed out {o.rpsleaf} tokens, its callers (the instances) got {o.rpsout}: {o.rpsleaf - o.rpsout} tokens were consumed inside the profile" else
   match o.rpsspans.find? (fun sp => sp.2 - sp.1 < o.rpsmin) with
   | some sp => s!"fail:fired:an RPS profile reported its end {sp.2 - sp.1} ns after its first token was asked for, its parts up to the unlimited one last {o.rpsmin} ns"
   | none =>
@@ -314,6 +326,11 @@ where
     if o.mfin.isSome && o.mfin != some o.exits.length then s!"fail:metric:Metrics.InstanceFinish counts {o.mfin.getD 0} finished instances, {o.exits.length} instances ran and were closed" else
     if (startCuts perinst o).isEmpty && o.err == "nil" && o.k != o.total then s!"fail:count:{o.k} instances for {o.total} tokens and nothing cut the start short" else
     if o.jitter ≤ jitterMax && o.k + o.fails < lower perinst o then s!"fail:missing:{o.k} instances, {lower perinst o} tokens were released {margin / 1000000} ms or more before the first cause {o.cuts}" else
+    -- what a profile answers to `Left()` before anything was drawn: its number of tokens — "unknown" (negative) exactly when a
+    -- part has unknown length; in particular never 0 ("exhausted") for a profile that has tokens or an unlimited part
+    if o.rpsunk && (o.rpsl0.getD (-1)) ≥ 0 then s!"fail:left:an RPS profile with a part of unknown length (unlimited) answers Left() = {o.rpsl0.getD 0} before its first token was asked for — 'exactly that many tokens to come'" else
+    if !o.rpsunk && o.rpstot ≥ 0 && o.rpsl0.isSome && o.rpsl0 != some o.rpstot then s!"fail:left:an RPS profile of {o.rpstot} tokens answers Left() = {o.rpsl0.getD 0} before its first token was asked for" else
+    if o.sul0.isSome && o.sul0 != some (o.total : Int) then s!"fail:left:a startup profile of {o.total} tokens answers Left() = {o.sul0.getD 0} before its first token was asked for" else
     match judgeExits o with
     | "ok" => (match judgeCtx o with
       | "ok" => judgeFired perinst o
